@@ -1,10 +1,13 @@
 (* C02 -- recursive descent visits every node once, in document pre-order.
    `below c d` is the pre-order list of all descendants of d (C02_preorder_*: a member, then everything below
    it, then the next member; dict members in insertion order, list items by index).  The machine delivers
-   exactly `deval` (C02_find_matches_exact, any number of recursive steps in any position). *)
+   exactly `deval` (C02_find_matches_exact, any number of recursive steps in any position).
+   C02_below_is_exactly_the_descendants: the walk lists the context of a node iff the node is reached from d by a
+   non-empty chain of member steps (completeness and soundness).  C02_each_exactly_once: with unique dict keys
+   (`uniq`: every Python dict) the context and its descendants are listed without naming any location twice. *)
 From Coq Require Import List ZArith String Bool PArith.
 From TP Require Import Json PyPrim Machine Spec.
-From TP.proofs Require Import RefineBase Refine NextLayer Iterate WfRun Query SpecLemmas Top PropLemmas.
+From TP.proofs Require Import RefineBase Refine NextLayer Iterate WfRun Query SpecLemmas Top PropLemmas BelowLemmas.
 Import ListNotations.
 
 Theorem C02_find_matches_exact :
@@ -46,3 +49,27 @@ Theorem C02_compose : forall (P : Type) sev p q, ends_rec P p = false ->
     forall c, deval P sev (p ++ q) c = flat_map (deval P sev q) (deval P sev p c).
 Proof. exact deval_app. Qed.
 Print Assumptions C02_compose.
+
+Theorem C02_below_is_exactly_the_descendants : forall c d c',
+    In c' (below c d) <-> exists ns d', ns <> [] /\ at_path c d ns c' d'.
+Proof. exact below_exact. Qed.
+Print Assumptions C02_below_is_exactly_the_descendants.
+
+Theorem C02_each_exactly_once : forall c,
+    uniq (cdata c) -> NoDup (map cnames (c :: below c (cdata c))).
+Proof. exact rec_last_nodup. Qed.
+Print Assumptions C02_each_exactly_once.
+
+(* non-vacuity: {"a": [1, {}], "b": {}} has unique keys; its walk lists 5 nodes *)
+Example C02_uniq_example :
+  let d := JDict 1 [("a"%string, JList 2 [JInt 1; JDict 3 []]); ("b"%string, JDict 4 [])] in
+  uniq d /\ List.length (root_ctx d :: below (root_ctx d) d) = 5%nat.
+Proof.
+  split; [|reflexivity].
+  apply uniq_dict.
+  - simpl. constructor; [simpl; intros [H|[]]; discriminate|]. constructor; [intros []|constructor].
+  - apply Forall_cons; [|apply Forall_cons; [|apply Forall_nil]]; cbn [snd].
+    + apply uniq_list. apply Forall_cons; [apply U_scalar; reflexivity|]. apply Forall_cons; [|apply Forall_nil].
+      apply uniq_dict; constructor.
+    + apply uniq_dict; constructor.
+Qed.
